@@ -4,7 +4,9 @@ import (
 	"bufio"
 	"bytes"
 	"context"
+	"encoding/base64"
 	"fmt"
+	"io"
 	"math/rand"
 	"net"
 	"net/http"
@@ -58,6 +60,8 @@ type hsCfg struct {
 	timeout bool
 	proxy   bool
 	ctxDL   bool // the deadline comes from the caller's context (HandshakeTimeout is zero), client only
+	// proxy credentials (decoded form), for the Proxy-Authorization oracle
+	proxyUser, proxyPass string
 }
 
 // one handshake over a scripted conn with the given op failing; returns the conn's op log etc.
@@ -96,7 +100,11 @@ func runHandshake(cfg hsCfg, failAt int, kind string, proxyReply string) (t *TCo
 		defer cancel()
 	}
 	if cfg.proxy {
-		d.Proxy = func(*http.Request) (*url.URL, error) { return url.Parse("http://proxy.test:8080") }
+		pu := &url.URL{Scheme: "http", Host: "proxy.test:8080"}
+		if cfg.proxyUser != "" {
+			pu.User = url.UserPassword(cfg.proxyUser, cfg.proxyPass)
+		}
+		d.Proxy = func(*http.Request) (*url.URL, error) { return pu, nil }
 		t.dynQ = append(t.dynQ, func([]byte) []byte { return []byte(proxyReply) })
 	}
 	t.dynQ = append(t.dynQ, func(w []byte) []byte { return replyFor(w, 0) })
@@ -130,13 +138,29 @@ func runHsFaultScenario(seed int64, idx int) *scenario {
 	}
 	// no deadline left armed: the last deadline operation must set the zero time
 	lastD := ""
+	readArmed, writeArmed := "", ""
 	for _, o := range t0.ops {
 		if strings.HasPrefix(o, "S") {
 			lastD = o
+			armed := ""
+			if !strings.HasSuffix(o, ":0") {
+				armed = o
+			}
+			switch {
+			case strings.HasPrefix(o, "SD:"):
+				readArmed, writeArmed = armed, armed
+			case strings.HasPrefix(o, "SRD:"):
+				readArmed = armed
+			case strings.HasPrefix(o, "SWD:"):
+				writeArmed = armed
+			}
 		}
 	}
 	if lastD != "" && !strings.HasSuffix(lastD, ":0") {
 		sc.violate("handshake returned with a deadline still armed: last deadline op %s", lastD)
+	}
+	if readArmed != "" || writeArmed != "" {
+		sc.violate("handshake returned with a deadline still armed (read: %q, write: %q; ops %v)", readArmed, writeArmed, t0.ops)
 	}
 	if cfg.timeout && !cfg.server {
 		// every operation after the dial runs under a deadline: the first op must arm it
@@ -180,6 +204,29 @@ func runHsFaultScenario(seed int64, idx int) *scenario {
 			sc.tag("closed-twice")
 		}
 	}
+	// proxy credentials: Proxy-Authorization is Basic base64(user ":" password) of the DECODED userinfo of
+	// the proxy URL, whatever characters it contains
+	if cfg.proxy {
+		for _, cr := range [][2]string{{"alice", "s3cret"}, {"al ice", "p@ss:w/rd"}, {"a%b", "#?&="}, {"ü", "pä\\ss"}, {"user@corp", "x y"}} {
+			c2 := cfg
+			c2.proxyUser, c2.proxyPass = cr[0], cr[1]
+			t, _, _, p := runHandshake(c2, -1, "", "HTTP/1.1 200 Connection established\r\n\r\n")
+			if p != "" {
+				sc.violate("Dial through a proxy with credentials %q panicked: %s", cr, p)
+				continue
+			}
+			got := ""
+			for _, l := range strings.Split(strings.SplitN(string(t.wire), "\r\n\r\n", 2)[0], "\r\n") {
+				if j := strings.Index(l, ":"); j > 0 && asciiLower(l[:j]) == "proxy-authorization" {
+					got = owsTrim(l[j+1:])
+				}
+			}
+			want := "Basic " + base64.StdEncoding.EncodeToString([]byte(cr[0]+":"+cr[1]))
+			if got != want {
+				sc.violate("proxy credentials %q:%q: Proxy-Authorization is %q, expected %q", cr[0], cr[1], got, want)
+			}
+		}
+	}
 	// proxy refusals: any non-200 reply aborts with an error, connection closed, no panic (F6)
 	if cfg.proxy {
 		for _, rep := range []string{"HTTP/1.1 407 Proxy Authentication Required\r\n\r\n", "HTTP/1.1 407\r\n\r\n", "HTTP/1.1 502 Bad Gateway\r\nContent-Length: 3\r\n\r\nabc", "HTTP/1.1 301 \r\n\r\n", "garbage\r\n\r\n", "",
@@ -212,7 +259,7 @@ func runHsFaultScenario(seed int64, idx int) *scenario {
 func runGlueScenario(seed int64) *scenario {
 	r := rand.New(rand.NewSource(seed))
 	sc := &scenario{kind: "glue", seed: seed}
-	g := &rGen{rng: r, sc: sc, log: &evlog{}, opt: rOpts{mode: "conform", smallOnly: true}}
+	g := &rGen{rng: r, sc: sc, log: &evlog{}, opt: rOpts{mode: "conform", smallOnly: r.Intn(4) != 0}}
 	ks := &keySource{keys: []byte{5, 6, 7, 8}}
 	restore := websocket.VerifSetMaskRand(ks)
 	defer restore()
@@ -222,7 +269,7 @@ func runGlueScenario(seed int64) *scenario {
 	g.rbuf = 0
 	g.build()
 	stream := g.stream
-	if len(stream) > 3000 {
+	if len(stream) > 3000 && server || len(stream) > 40000 {
 		return nil
 	}
 	var c *websocket.Conn
@@ -276,7 +323,7 @@ func runGlueScenario(seed int64) *scenario {
 		sc.tag(fmt.Sprintf("srv:reuse=%v:pre=%v", reuse, k > 0))
 	} else {
 		// client: 101 and frames share transport reads in every split
-		rbs := []int{0, 16, 125, 200, 1024}[r.Intn(5)]
+		rbs := []int{0, 16, 125, 200, 1024, 4096, 8192, 16384}[r.Intn(8)]
 		d := &websocket.Dialer{ReadBufferSize: rbs}
 		var reply []byte
 		t.dynQ = append(t.dynQ, func(w []byte) []byte {
@@ -418,6 +465,55 @@ func runNegoScenario(seed int64, idx int) *scenario {
 	}
 	send(cconn, tc, sconn, ts, "client→server")
 	send(sconn, ts, cconn, tc, "server→client")
+	// both endpoints live in one process (as a proxy or a test would have them): readers of the two
+	// connections that are open at the same time must not disturb each other (shared decompressor pool)
+	mk := func(tag byte, n int) []byte {
+		p := make([]byte, n)
+		for j := range p {
+			p[j] = tag + byte(j%7)
+		}
+		return p
+	}
+	m1, m2, m3 := mk('A', 300), mk('K', 249), mk('S', 777)
+	cconn.EnableWriteCompression(true)
+	sconn.EnableWriteCompression(true)
+	deliver := func(from, to *TConn) {
+		to.chunks = append(to.chunks, append([]byte(nil), from.wire...))
+		from.wire = nil
+	}
+	step := func(what string, err error) bool {
+		if err != nil {
+			sc.violate("overlapping readers: %s: %v", what, err)
+			return false
+		}
+		return true
+	}
+	if !step("client WriteMessage", cconn.WriteMessage(2, m1)) {
+		return sc
+	}
+	deliver(tc, ts)
+	if _, p, err := sconn.ReadMessage(); err != nil || !bytes.Equal(p, m1) {
+		sc.violate("overlapping readers: first message arrived as %d bytes, err %v", len(p), err)
+		return sc
+	}
+	if !step("client WriteMessage", cconn.WriteMessage(2, m3)) || !step("server WriteMessage", sconn.WriteMessage(1, m2)) {
+		return sc
+	}
+	deliver(tc, ts)
+	deliver(ts, tc)
+	_, rs, err1 := sconn.NextReader()
+	_, rc, err2 := cconn.NextReader()
+	if !step("server NextReader", err1) || !step("client NextReader", err2) {
+		return sc
+	}
+	ps, errs := io.ReadAll(rs)
+	pc, errc := io.ReadAll(rc)
+	if errs != nil || !bytes.Equal(ps, m3) {
+		sc.violate("overlapping readers: the server read %d bytes (err %v) of the client's %d-byte message while the client had a reader open", len(ps), errs, len(m3))
+	}
+	if errc != nil || !bytes.Equal(pc, m2) {
+		sc.violate("overlapping readers: the client read %d bytes (err %v) of the server's %d-byte message while the server had a reader open", len(pc), errc, len(m2))
+	}
 	return sc
 }
 
